@@ -108,6 +108,15 @@ type GenesisOpts struct {
 	MaxTxSize uint64
 	// VotingPeriod of governance in epochs (default 2).
 	VotingPeriod uint64
+	// EqualEscrow > 0: every validator entity gets exactly this self-escrow and no account
+	// delegates to a validator, so all entities tie in stake-ordered elections.
+	EqualEscrow uint64
+	// MaxValidators of the scheduler (default 100). With fewer than the number of eligible
+	// entities the election has a cutoff.
+	MaxValidators int
+	// NoRewards empties the reward schedule (escrow balances then only change by transactions
+	// and slashing, so ties persist across epochs).
+	NoRewards bool
 	// Mutate, when set, is applied to the document before it is frozen.
 	Mutate func(*genesis.Document)
 }
@@ -198,6 +207,9 @@ func NewGenesis(seed uint64, opts GenesisOpts) (*Genesis, error) {
 	}
 	if opts.MaxTxSize == 0 {
 		opts.MaxTxSize = 32768
+	}
+	if opts.MaxValidators <= 0 {
+		opts.MaxValidators = 100
 	}
 	rs := seed*0x9E3779B97F4A7C15 + 0xabcdef
 	if opts.DebondingInterval == 0 {
@@ -302,7 +314,7 @@ func NewGenesis(seed uint64, opts GenesisOpts) (*Genesis, error) {
 		Scheduler: scheduler.Genesis{
 			Parameters: scheduler.ConsensusParameters{
 				MinValidators:                1,
-				MaxValidators:                100,
+				MaxValidators:                opts.MaxValidators,
 				MaxValidatorsPerEntity:       1,
 				DebugBypassStake:             opts.BypassStake,
 				RewardFactorEpochElectionAny: q(1),
@@ -361,6 +373,9 @@ func NewGenesis(seed uint64, opts GenesisOpts) (*Genesis, error) {
 	for i := 0; i < opts.Validators; i++ {
 		v := newValidator(seed, i)
 		v.Escrow = 160_000 + 16_000*uint64(i) + 16*(splitmix(&rs)%1000)
+		if opts.EqualEscrow > 0 {
+			v.Escrow = opts.EqualEscrow
+		}
 		g.Validators = append(g.Validators, v)
 
 		ent := &entity.Entity{
@@ -424,7 +439,7 @@ func NewGenesis(seed uint64, opts GenesisOpts) (*Genesis, error) {
 		g.Accounts = append(g.Accounts, a)
 		st.Ledger[a.Address] = &staking.Account{General: staking.GeneralAccount{Balance: q(bal)}}
 		add(bal)
-		if i%3 == 0 && opts.Validators > 0 {
+		if i%3 == 0 && opts.Validators > 0 && opts.EqualEscrow == 0 {
 			v := g.Validators[i%opts.Validators]
 			va := v.Entity.Address()
 			amt := uint64(1_600 + 160*i)
@@ -445,6 +460,9 @@ func NewGenesis(seed uint64, opts GenesisOpts) (*Genesis, error) {
 	st.TotalSupply = *total
 	if total.Cmp(quantity.NewFromUint64(math.MaxInt64)) > 0 {
 		return nil, fmt.Errorf("total supply overflow")
+	}
+	if opts.NoRewards {
+		st.Parameters.RewardSchedule = nil
 	}
 	doc.Staking = st
 
